@@ -89,6 +89,17 @@ func main() {
 			if r.Chance(1, 4) {
 				return ops
 			}
+			if r.Chance(1, 4) {
+				// a keystore leaves and comes back under ANOTHER new passphrase while a second keystore stays: refused, or
+				// two passphrases would govern the wallet (the export's passphrase is the current one, so every check
+				// that looks at the wrong one of the two arguments passes)
+				ins := []wl.Op{{Kind: "create", PC: "cur", SeedKind: "fresh", Remark: "stays"}, {Kind: "export", PC: "cur", K: 0}, {Kind: "delete", PC: "cur", K: 0},
+					{Kind: "import", PC: "exp", NPC: "other", X: -1}, {Kind: "unlock", PC: "cur"}, {Kind: "sign", N: 1}, {Kind: "lock"}}
+				pos := 1 + r.Intn(len(ops)/2+1)
+				out := append([]wl.Op{}, ops[:pos]...)
+				out = append(out, ins...)
+				return append(out, ops[pos:]...)
+			}
 			if r.Chance(1, 3) {
 				// passphrases of the longest (or shortest) legal length, and candidates that extend the current one
 				// (also by NUL bytes and beyond the legal length), tried while unlocked and while locked
